@@ -7,7 +7,7 @@ CRYPTO_ASSUME = 'SHA-1/SHA-256/HMAC/AES-CTR/DSA are modelled by Lean re-implemen
 PROPS = {
     'C17': dict(
         module='Props.C17', level='proof',
-        profiles=dict(quick=[('pure', 6000, 1), ('keyfile', 150, 1), ('sched', 3, 1)], thorough=[('pure', 40000, 8), ('keyfile', 2000, 4), ('sched', 12, 2)]),
+        profiles=dict(quick=[('pure', 6000, 1), ('keyfile', 150, 1), ('sched', 3, 1), ('smp', 40, 1)], thorough=[('pure', 40000, 8), ('keyfile', 2000, 4), ('sched', 12, 2)]),
         explanation='round-trip theorems over all values (Props.C17); model tied to the Go (de)serialisers by differential execution of generated and mutated structures',
         assumptions=['field lengths < 2^32 (TLV < 2^16) as explicit hypotheses', 'key file: account names without a double quote, protocol names of symbol characters (exact condition: Account.wellFormed)']),
     'C14': dict(
